@@ -175,6 +175,13 @@ def _pick_lookups(rng, dump, n=40):
                     break
     if dump["object"]:
         lookups += [("s", rng.below(2**40)), ("s", max(0, base - 1)), ("o", rng.below(1 << 22)), ("o", 2**63)]
+        # stated virtual addresses outside [base, base + 2^32): below the image base (images based at or above 4 GiB - Mach-O executables,
+        # PE32+ - have 32-bit values there that equal relative addresses of real functions modulo 2^32) and 4 GiB or more above it
+        for a in addrs[::max(1, len(addrs) // 6)][:8]:
+            lo = (a + base) % 2**32
+            if lo < base:
+                lookups.append(("s", lo))
+            lookups.append(("s", base + 2**32 + a))
         # every boundary of the file ranges: first and last byte of a range, one before, one past (abutting ranges with different deltas)
         for (sv, fo, sz) in ranges[:6]:
             for off in (fo, max(fo - 1, 0), fo + max(sz, 1) - 1, fo + sz):
